@@ -111,10 +111,11 @@ type pathStep struct {
 }
 
 // LV describes a memory location.
-//   kind "comp":   component comp indexed by idx (1 index: field/cell, 2 indices: slice element), then a path of
-//                  struct-value field projections;
-//   kind "struct": a struct object at reference ref (its fields live in per-field components);
-//   kind "array":  an array object at reference ref (contents in Elems$<elem>[ref]).
+//
+//	kind "comp":   component comp indexed by idx (1 index: field/cell, 2 indices: slice element), then a path of
+//	               struct-value field projections;
+//	kind "struct": a struct object at reference ref (its fields live in per-field components);
+//	kind "array":  an array object at reference ref (contents in Elems$<elem>[ref]).
 type LV struct {
 	kind string
 	comp string
